@@ -78,6 +78,18 @@ def _renamed_fns(d):
                   (g2.rsplit("::", 1)[0] == n.rsplit("::", 1)[0] or g2.rsplit("::", 1)[1] == n.rsplit("::", 1)[1])]
         if len(rivals) == 1:
             out.append((n, g))
+    # same name, different signature (e.g. a method turned into a free function taking a slice): accepted when the name is unique
+    # among the functions that disappeared and among those that appeared
+    taken_new = {n for n, g in out}
+    taken_old = {g for n, g in out}
+    for g in gone:
+        if g in taken_old:
+            continue
+        last = g.rsplit("::", 1)[1]
+        cands = [n for n in new if n not in taken_new and n.rsplit("::", 1)[1] == last]
+        rivals = [g2 for g2 in gone if g2 not in taken_old and g2.rsplit("::", 1)[1] == last]
+        if len(cands) == 1 and len(rivals) == 1:
+            out.append((cands[0], g))
     return out
 
 
